@@ -4,6 +4,7 @@ import (
 	"encoding/json"
 	"os"
 	"reflect"
+	"sort"
 	"strings"
 	"sync"
 
@@ -54,16 +55,18 @@ func matchOnce(p, f interface{}, bs match.Bindings) (o map[string]interface{}, b
 	for _, b := range bss {
 		res = append(res, map[string]interface{}(b))
 	}
+	// results come out of map iteration: compare as a sorted multiset
+	sort.SliceStable(res, func(i, j int) bool { return gen.Canon(res[i]) < gen.Canon(res[j]) })
 	return map[string]interface{}{"res": res}, bss
 }
 
 func mapPtr(m interface{}) uintptr { return reflect.ValueOf(m).Pointer() }
 
-func runMatchCase(id int, c gen.MatchCase, reps int, crashed bool, probe bool) matchLine {
+func runMatchCase(id int, c gen.MatchCase, reps int, crashed bool, probe bool) (matchLine, map[string]bool) {
 	line := matchLine{Op: "match", Id: id, P: c.P, F: c.F, Bs: c.Bs, Planted: c.Planted, Profile: c.Profile}
 	if crashed {
 		line.Go = []map[string]interface{}{{"crash": true}}
-		return line
+		return line, nil
 	}
 	seen := map[string]bool{}
 	untouched, fresh, independent := true, true, true
@@ -113,14 +116,12 @@ func runMatchCase(id int, c gen.MatchCase, reps int, crashed bool, probe bool) m
 	if probe {
 		line.Probe = map[string]interface{}{"untouched": untouched, "fresh": fresh, "independent": independent}
 	}
-	return line
+	return line, seen
 }
 
 // concurrentProbe matches one shared pattern value from many goroutines and
 // compares every outcome with the sequential one.
-func concurrentProbe(c gen.MatchCase) bool {
-	want, _ := matchOnce(c.P, c.F, match.Bindings(c.Bs))
-	w := gen.Canon(want)
+func concurrentProbe(c gen.MatchCase, seq map[string]bool) bool {
 	var wg sync.WaitGroup
 	ok := true
 	var mu sync.Mutex
@@ -131,7 +132,7 @@ func concurrentProbe(c gen.MatchCase) bool {
 			for j := 0; j < 4; j++ {
 				bs := match.Bindings(gen.DeepCopy(c.Bs).(map[string]interface{}))
 				o, _ := matchOnce(c.P, c.F, bs)
-				if gen.Canon(o) != w {
+				if !seq[gen.Canon(o)] {
 					mu.Lock()
 					ok = false
 					mu.Unlock()
@@ -162,10 +163,26 @@ func runMatch(cfg Config) {
 		if c.Bs == nil {
 			c.Bs = map[string]interface{}{}
 		}
-		enc.Encode(runMatchCase(0, c, cfg.Reps, false, true))
+		line, _ := runMatchCase(0, c, cfg.Reps, false, true)
+		enc.Encode(line)
 		return
 	}
 	g := gen.New(cfg.Seed)
+	nc := 0
+	for _, l := range corpusLines(cfg.Corpus) {
+		var c gen.MatchCase
+		if json.Unmarshal(l, &c) != nil {
+			continue
+		}
+		if c.Bs == nil {
+			c.Bs = map[string]interface{}{}
+		}
+		c.Profile = "corpus"
+		nc++
+		mark(-nc)
+		line, _ := runMatchCase(-nc, c, cfg.Reps*8, cfg.Crashed[-nc], cfg.Profile == "c03")
+		enc.Encode(line)
+	}
 	for i := 0; i < cfg.N; i++ {
 		var c gen.MatchCase
 		switch cfg.Profile {
@@ -188,9 +205,10 @@ func runMatch(cfg Config) {
 			}
 		}
 		mark(i)
-		line := runMatchCase(i, c, cfg.Reps, cfg.Crashed[i], cfg.Profile == "c03")
-		if cfg.Profile == "c03" && !cfg.Crashed[i] && i%16 == 1 {
-			line.Probe["concurrent"] = concurrentProbe(c)
+		line, seen := runMatchCase(i, c, cfg.Reps, cfg.Crashed[i], cfg.Profile == "c03")
+		if cfg.Profile == "c03" && !cfg.Crashed[i] && i%16 == 1 && len(seen) == 1 {
+			// only where the sequential outcome is unique is "same result as alone" well defined
+			line.Probe["concurrent"] = concurrentProbe(c, seen)
 		}
 		enc.Encode(line)
 	}
